@@ -1,7 +1,900 @@
-(** * C10 — proofs (in progress). *)
-From Coq Require Import List Bool Arith.
+(** * C10 — proofs about the state-transfer model. *)
+From Coq Require Import List Bool Arith Lia.
 Import ListNotations.
-From Attrs Require Import C10.Model.
+From Attrs Require Import Base C10.Model.
 
-Lemma deep_never_wrap v : match deep_pv v with PWrap _ => False | _ => True end.
-Proof. destruct v; exact Logic.I. Qed.
+(** ** Keys, values, stores *)
+
+Lemma key_eqb_spec a b : key_eqb a b = true <-> a = b.
+Proof.
+  destruct a as [x|], b as [y|]; cbn; split; intros H; try discriminate; try reflexivity.
+  - apply Nat.eqb_eq in H. now subst.
+  - inversion H; subst. apply Nat.eqb_refl.
+Qed.
+
+Lemma key_eqb_refl k : key_eqb k k = true.
+Proof. now apply key_eqb_spec. Qed.
+
+Lemma key_eqb_neq a b : a <> b -> key_eqb a b = false.
+Proof.
+  intros H. destruct (key_eqb a b) eqn:E; [|reflexivity].
+  apply key_eqb_spec in E. contradiction.
+Qed.
+
+Lemma key_eq_dec (a b : key) : {a = b} + {a <> b}.
+Proof.
+  destruct (key_eqb a b) eqn:E.
+  - left. now apply key_eqb_spec.
+  - right. intros ->. rewrite key_eqb_refl in E. discriminate.
+Qed.
+
+Lemma val_eqb_refl v : val_eqb v v = true.
+Proof. destruct v; cbn; apply Nat.eqb_refl. Qed.
+
+Lemma hres_eqb_refl h : hres_eqb (HVal h) (HVal h) = true.
+Proof. cbn. induction h as [|v h IH]; [reflexivity|]. now rewrite val_eqb_refl, IH. Qed.
+
+Lemma is_slot_in m k : is_slot m k = true <-> In k (slotnames m).
+Proof.
+  unfold is_slot. rewrite existsb_exists. split.
+  - intros (k' & Hin & E). apply key_eqb_spec in E. now subst.
+  - intros H. exists k. split; [assumption | apply key_eqb_refl].
+Qed.
+
+Lemma getattr_set_same m i k v : getattr m (obj_setattr m i k v) k = Some v.
+Proof.
+  unfold getattr, obj_setattr. destruct (is_slot m k); cbn; now rewrite key_eqb_refl.
+Qed.
+
+Lemma getattr_set_other m i k k' v :
+  k <> k' -> getattr m (obj_setattr m i k v) k' = getattr m i k'.
+Proof.
+  intros H. unfold getattr, obj_setattr.
+  destruct (is_slot m k) eqn:E, (is_slot m k') eqn:E'; cbn; try reflexivity;
+    rewrite key_eqb_neq by congruence; reflexivity.
+Qed.
+
+Lemma getattr_set_all_notin m : forall l i k,
+  ~ In k (map fst l) -> getattr m (set_all m i l) k = getattr m i k.
+Proof.
+  induction l as [|[k0 v0] r IH]; intros i k H; cbn; [reflexivity|].
+  rewrite IH by (intros C; apply H; now right).
+  apply getattr_set_other. intros ->. apply H. now left.
+Qed.
+
+Lemma getattr_set_all_in m : forall l i k v,
+  In (k, v) l -> (forall v', In (k, v') l -> v' = v) ->
+  getattr m (set_all m i l) k = Some v.
+Proof.
+  induction l as [|[k0 v0] r IH]; intros i k v Hin Huniq; [destruct Hin|].
+  cbn [set_all].
+  destruct (in_dec key_eq_dec k (map fst r)) as [Hr|Hr].
+  - apply in_map_iff in Hr as ([k1 v1] & Hk & Hin1). cbn in Hk. subst k1.
+    assert (v1 = v) by (apply Huniq; now right). subst v1.
+    apply IH; [assumption|]. intros v' Hv'. apply Huniq. now right.
+  - rewrite getattr_set_all_notin by assumption.
+    destruct Hin as [E|Hin].
+    + inversion E; subst. apply getattr_set_same.
+    + exfalso. apply Hr. apply in_map_iff. exists (k, v). split; [reflexivity|assumption].
+Qed.
+
+Lemma get_xfer_store o : forall s k, get (xfer_store o s) k = option_map (xfer o) (get s k).
+Proof.
+  induction s as [|[k0 v0] r IH]; intros k; cbn; [reflexivity|].
+  destruct (key_eqb k k0); [reflexivity | apply IH].
+Qed.
+
+Lemma xfer_pv o v : xfer o (PV v) = PV v.
+Proof. destruct o; reflexivity. Qed.
+
+(** ** The instance invariant *)
+
+Definition fields_ok (m : mro) (x : inst) (fv : fname -> val) : Prop :=
+  forall n, In n (attr_names m) -> getattr m x (KF n) = Some (PV (fv n)).
+
+(** The cache attribute of a caching class is readable and holds None or a wrapper. *)
+Definition cache_ok (m : mro) (x : inst) : Prop :=
+  leaf_cache m = true ->
+  getattr m x KCache = Some PNone \/ exists h, getattr m x KCache = Some (PWrap h).
+
+(** A cached code is the code of the current field values (and those are hashable). *)
+Definition coherent (m : mro) (x : inst) (fv : fname -> val) : Prop :=
+  forall h, getattr m x KCache = Some (PWrap h) ->
+  h = map fv (attr_names m) /\ forallb val_hashable h = true.
+
+Definition fields_store (fv : fname -> val) (ns : list fname) : store :=
+  map (fun n => (KF n, PV (fv n))) ns.
+
+Lemma fields_store_in fv ns n : In n ns -> In (KF n, PV (fv n)) (fields_store fv ns).
+Proof. intros H. apply in_map_iff. exists n. split; [reflexivity|assumption]. Qed.
+
+Lemma fields_store_uniq fv ns n v : In (KF n, v) (fields_store fv ns) -> v = PV (fv n).
+Proof.
+  intros H. apply in_map_iff in H as (n' & E & _). inversion E; subst. reflexivity.
+Qed.
+
+Lemma fields_store_keys fv ns : ~ In KCache (map fst (fields_store fv ns)).
+Proof.
+  intros H. apply in_map_iff in H as ([k v] & E & Hin). cbn in E. subst k.
+  apply in_map_iff in Hin as (n & E & _). discriminate.
+Qed.
+
+Lemma set_fields_ok m i fv ns n :
+  In n ns -> getattr m (set_all m i (fields_store fv ns)) (KF n) = Some (PV (fv n)).
+Proof.
+  intros H. apply getattr_set_all_in; [now apply fields_store_in|].
+  intros v'. apply fields_store_uniq.
+Qed.
+
+(** ** [__init__] *)
+
+Lemma init_cache_fields m i k : k <> KCache -> getattr m (init_cache m i) k = getattr m i k.
+Proof.
+  intros H. unfold init_cache. destruct (leaf_cache m); [|reflexivity].
+  destruct (eff_frozen m && negb (leaf_slots m) && negb (is_slot m KCache)).
+  - unfold getattr; cbn. destruct (is_slot m k); [reflexivity|].
+    rewrite key_eqb_neq by assumption. reflexivity.
+  - apply getattr_set_other. congruence.
+Qed.
+
+Lemma init_fields_ok m fv : fields_ok m (init m fv) fv.
+Proof.
+  intros n Hn. unfold init. rewrite init_cache_fields by discriminate.
+  now apply set_fields_ok.
+Qed.
+
+(** The generated [__init__] of a caching class leaves a readable cache holding None
+    (a frozen dict class writes it into [__dict__] only when no ancestor slot
+    would shadow it). *)
+Lemma init_cache_none m fv :
+  leaf_cache m = true -> getattr m (init m fv) KCache = Some PNone.
+Proof.
+  unfold init, init_cache. intros Hc. rewrite Hc.
+  destruct (eff_frozen m && negb (leaf_slots m) && negb (is_slot m KCache)) eqn:E;
+    [|apply getattr_set_same].
+  apply andb_true_iff in E as [_ E]. apply negb_true_iff in E.
+  unfold getattr. rewrite E. cbn. reflexivity.
+Qed.
+
+(** ** Reading fields, hashing, comparing *)
+
+Lemma read_fields_ok m x fv : fields_ok m x fv -> forall ns,
+  incl ns (attr_names m) -> read_fields m x ns = Some (map fv ns).
+Proof.
+  intros H. induction ns as [|n r IH]; intros Hi; cbn; [reflexivity|].
+  rewrite (H n) by (apply Hi; now left).
+  rewrite IH by (intros a Ha; apply Hi; now right). reflexivity.
+Qed.
+
+Lemma read_attrs_ok m x fv : fields_ok m x fv -> forall ns,
+  incl ns (attr_names m) -> read_attrs m x ns = Some (fields_store fv ns).
+Proof.
+  intros H. induction ns as [|n r IH]; intros Hi; cbn; [reflexivity|].
+  rewrite (H n) by (apply Hi; now left).
+  rewrite IH by (intros a Ha; apply Hi; now right). reflexivity.
+Qed.
+
+(** The hash an instance with field values [fv] and no cached code answers. *)
+Definition hash_spec (m : mro) (fv : fname -> val) : hres :=
+  if negb (hashable m) then HTypeErr
+  else if forallb val_hashable (map fv (attr_names m)) then HVal (map fv (attr_names m))
+  else HTypeErr.
+
+Lemma compute_hash_ok m x fv : fields_ok m x fv ->
+  compute_hash m x =
+  if forallb val_hashable (map fv (attr_names m)) then HVal (map fv (attr_names m)) else HTypeErr.
+Proof.
+  intros H. unfold compute_hash. rewrite (read_fields_ok m x fv H) by apply incl_refl. reflexivity.
+Qed.
+
+Lemma do_hash_uncached m x fv :
+  fields_ok m x fv -> (leaf_cache m = true -> getattr m x KCache = Some PNone) ->
+  fst (do_hash m x) = hash_spec m fv.
+Proof.
+  intros H Hc. unfold do_hash, hash_spec. destruct (negb (hashable m)); [reflexivity|].
+  rewrite (compute_hash_ok m x fv H).
+  destruct (leaf_cache m); [|reflexivity]. rewrite Hc by reflexivity.
+  destruct (forallb val_hashable (map fv (attr_names m))); reflexivity.
+Qed.
+
+Lemma do_hash_cached m x h :
+  hashable m = true -> leaf_cache m = true -> getattr m x KCache = Some (PWrap h) ->
+  fst (do_hash m x) = HVal h.
+Proof. intros Hh Hc Hg. unfold do_hash. rewrite Hh, Hc, Hg. reflexivity. Qed.
+
+(** [hash()] keeps the invariant; what it may store is the code of the current values. *)
+Lemma do_hash_state m x fv : fields_ok m x fv ->
+  snd (do_hash m x) = x \/
+  (getattr m x KCache = Some PNone /\
+   forallb val_hashable (map fv (attr_names m)) = true /\
+   snd (do_hash m x) = obj_setattr m x KCache (PWrap (map fv (attr_names m)))).
+Proof.
+  intros H. unfold do_hash. destruct (negb (hashable m)); [now left|].
+  destruct (leaf_cache m); [|now left].
+  destruct (getattr m x KCache) as [[v| |h]|] eqn:E; try (now left).
+  rewrite (compute_hash_ok m x fv H).
+  destruct (forallb val_hashable (map fv (attr_names m))) eqn:F; [|now left].
+  right. cbn. auto.
+Qed.
+
+Lemma do_hash_preserves m x fv :
+  fields_ok m x fv -> cache_ok m x -> coherent m x fv ->
+  fields_ok m (snd (do_hash m x)) fv /\ cache_ok m (snd (do_hash m x))
+  /\ coherent m (snd (do_hash m x)) fv.
+Proof.
+  intros H C Co. destruct (do_hash_state m x fv H) as [E|(E1 & E2 & E3)].
+  - rewrite E. auto.
+  - rewrite E3. repeat split.
+    + intros n Hn. rewrite getattr_set_other by discriminate. now apply H.
+    + intros _. right. eexists. apply getattr_set_same.
+    + rewrite getattr_set_same in H0. inversion H0; subst. reflexivity.
+    + rewrite getattr_set_same in H0. inversion H0; subst. assumption.
+Qed.
+
+Lemma do_eq_ok m x y fv : fields_ok m x fv -> fields_ok m y fv -> forall ns,
+  incl ns (attr_names m) -> do_eq m y x ns = EqTrue.
+Proof.
+  intros Hx Hy. induction ns as [|n r IH]; intros Hi; cbn; [reflexivity|].
+  rewrite (Hx n), (Hy n) by (apply Hi; now left). rewrite val_eqb_refl.
+  apply IH. intros a Ha. apply Hi. now right.
+Qed.
+
+Lemma field_stats_ok m x y fv : fields_ok m x fv -> fields_ok m y fv -> forall ns,
+  incl ns (attr_names m) -> all_feq (map (field_stat m x y) ns) = true.
+Proof.
+  intros Hx Hy. induction ns as [|n r IH]; intros Hi; cbn; [reflexivity|].
+  unfold field_stat at 1. rewrite (Hx n), (Hy n) by (apply Hi; now left).
+  rewrite val_eqb_refl. cbn. apply IH. intros a Ha. apply Hi. now right.
+Qed.
+
+(** ** Histories *)
+
+Definition upd (fv : fname -> val) (n : fname) (v : val) : fname -> val :=
+  fun k => if Nat.eqb k n then v else fv k.
+
+(** The field values after a history (an assignment to a frozen instance fails). *)
+Fixpoint hist_fv (m : mro) (fv : fname -> val) (h : list preop) : fname -> val :=
+  match h with
+  | [] => fv
+  | PHash :: r => hist_fv m fv r
+  | PMut n v :: r => hist_fv m (if eff_frozen m then fv else upd fv n v) r
+  end.
+
+Lemma mutate_fields_ok m x fv n v :
+  fields_ok m x fv -> fields_ok m (obj_setattr m x (KF n) (PV v)) (upd fv n v).
+Proof.
+  intros H k Hk. unfold upd. destruct (Nat.eqb k n) eqn:E.
+  - apply Nat.eqb_eq in E. subst. apply getattr_set_same.
+  - apply Nat.eqb_neq in E. rewrite getattr_set_other by congruence. now apply H.
+Qed.
+
+Lemma hist_fields_cache m : forall h x fv,
+  fields_ok m x fv -> cache_ok m x ->
+  fields_ok m (apply_hist m x h) (hist_fv m fv h) /\ cache_ok m (apply_hist m x h).
+Proof.
+  induction h as [|p r IH]; intros x fv H C; cbn [apply_hist hist_fv]; [auto|].
+  destruct p as [|n v]; cbn [apply_pre].
+  - destruct (do_hash_state m x fv H) as [E|(E1 & E2 & E3)].
+    + rewrite E. now apply IH.
+    + rewrite E3. apply IH.
+      * intros k Hk. rewrite getattr_set_other by discriminate. now apply H.
+      * intros _. right. eexists. apply getattr_set_same.
+  - destruct (eff_frozen m); [now apply IH|].
+    apply IH; [now apply mutate_fields_ok|].
+    intros Hc. rewrite getattr_set_other by discriminate. now apply C.
+Qed.
+
+(** As long as no field is assigned after a hash, a cached code is current. *)
+Lemma hist_coherent m : forall h x fv hashed,
+  fields_ok m x fv -> coherent m x fv ->
+  (hashed = false -> forall c, getattr m x KCache <> Some (PWrap c)) ->
+  eff_frozen m || negb (mut_after_hash hashed h) = true ->
+  coherent m (apply_hist m x h) (hist_fv m fv h).
+Proof.
+  induction h as [|p r IH]; intros x fv hashed H Co Hn G; cbn [apply_hist hist_fv]; [assumption|].
+  destruct p as [|n v]; cbn [apply_pre].
+  - cbn [mut_after_hash] in G.
+    destruct (do_hash_state m x fv H) as [E|(E1 & E2 & E3)].
+    + rewrite E. apply (IH x fv true); auto; try (intros C; discriminate).
+    + rewrite E3. apply (IH _ fv true); auto; try (intros C; discriminate).
+      * intros k Hk. rewrite getattr_set_other by discriminate. now apply H.
+      * intros c Hc. rewrite getattr_set_same in Hc. inversion Hc; subst. auto.
+  - cbn [mut_after_hash] in G. destruct (eff_frozen m) eqn:F.
+    + apply (IH x fv hashed); auto.
+    + cbn in G. apply negb_true_iff, orb_false_iff in G as [G1 G2]. subst hashed.
+      apply (IH _ _ false).
+      * now apply mutate_fields_ok.
+      * intros c Hc. rewrite getattr_set_other in Hc by discriminate.
+        exfalso. eapply Hn; eauto.
+      * intros _ c Hc. rewrite getattr_set_other in Hc by discriminate.
+        eapply Hn; eauto.
+      * rewrite G2. reflexivity.
+Qed.
+
+(** ** Transfer through a generated (or equivalent user-written) pair *)
+
+Definition old_proto (o : op) : bool :=
+  match o with OPickle p => Nat.ltb p 2 | _ => false end.
+
+Definition is_nil {A : Type} (l : list A) : bool := match l with [] => true | _ => false end.
+
+Lemma op_eq_legacy_dec (o : op) : {o = OLegacy} + {o <> OLegacy}.
+Proof. destruct o; try (right; discriminate). now left. Qed.
+
+Lemma run_nonlegacy m x o : o <> OLegacy ->
+  run m x o = match reduce m x o with
+              | inr e => e
+              | inl (st, has_state) =>
+                  if has_state then reconstruct m (xfer_state o st) else XOk empty
+              end.
+Proof. destruct o; intros H; try reflexivity. contradiction. Qed.
+
+Lemma get_fields_store fv : forall ns n,
+  In n ns -> get (fields_store fv ns) (KF n) = Some (PV (fv n)).
+Proof.
+  induction ns as [|a r IH]; intros n H; [destruct H|]. cbn.
+  destruct (Nat.eqb n a) eqn:E.
+  - apply Nat.eqb_eq in E. now subst.
+  - apply IH. destruct H as [->|H]; [|assumption]. rewrite Nat.eqb_refl in E. discriminate.
+Qed.
+
+Lemma pick_fields_store fv all : forall ns,
+  incl ns all -> pick (fields_store fv all) ns = fields_store fv ns.
+Proof.
+  induction ns as [|n r IH]; intros Hi; [reflexivity|]. unfold pick in *. cbn.
+  rewrite get_fields_store by (apply Hi; now left). cbn. f_equal.
+  apply IH. intros a Ha. apply Hi. now right.
+Qed.
+
+Lemma xfer_fields_store o fv ns : xfer_store o (fields_store fv ns) = fields_store fv ns.
+Proof.
+  unfold xfer_store, fields_store. rewrite map_map. apply map_ext. intros n. cbn.
+  now rewrite xfer_pv.
+Qed.
+
+Lemma combine_fields_store fv : forall ns,
+  combine (map KF ns) (map snd (fields_store fv ns)) = fields_store fv ns.
+Proof. unfold fields_store. induction ns as [|n r IH]; cbn; [reflexivity | now rewrite IH]. Qed.
+
+(** [slots_setstate] of a class [r] whose closure lists every field of the
+    instance's class restores every field and resets the cache. *)
+Lemma gen_setstate_fields m r fv st :
+  attr_names r = attr_names m ->
+  st = StDict (fields_store fv (attr_names r))
+  \/ st = StTuple (map snd (fields_store fv (attr_names r))) ->
+  fields_ok m (gen_setstate m r st empty) fv /\
+  (leaf_cache r = true -> getattr m (gen_setstate m r st empty) KCache = Some PNone).
+Proof.
+  intros Hn Hst. unfold gen_setstate.
+  assert (F : fields_ok m (match st with
+                           | StTuple vs => set_all m empty (combine (map KF (attr_names r)) vs)
+                           | StDict d => set_all m empty (pick d (attr_names r))
+                           | _ => empty end) fv).
+  { destruct Hst as [-> | ->].
+    - rewrite pick_fields_store by apply incl_refl.
+      intros n H. apply set_fields_ok. now rewrite Hn.
+    - rewrite combine_fields_store. intros n H. apply set_fields_ok. now rewrite Hn. }
+  destruct (leaf_cache r).
+  - split; [|intros _; apply getattr_set_same].
+    intros n H. rewrite getattr_set_other by discriminate. now apply F.
+  - split; [exact F | discriminate].
+Qed.
+
+(** The generated [__setstate__] ALWAYS leaves the cache of a caching class at None. *)
+Lemma setstate_resets_l m r st y :
+  leaf_cache r = true -> getattr m (gen_setstate m r st y) KCache = Some PNone.
+Proof. intros H. unfold gen_setstate. rewrite H. apply getattr_set_same. Qed.
+
+Lemma reduce_generated m r x fv o :
+  resolve m = RGen r \/ resolve m = RUser r ->
+  attr_names r = attr_names m -> fields_ok m x fv ->
+  reduce m x o = inl (StDict (fields_store fv (attr_names m)),
+                      if old_proto o then negb (is_nil (attr_names m)) else true).
+Proof.
+  intros Hr Hn H. unfold reduce.
+  assert (E : option_map StDict (read_attrs m x (attr_names r))
+              = Some (StDict (fields_store fv (attr_names m)))).
+  { rewrite (read_attrs_ok m x fv H) by (rewrite Hn; apply incl_refl). now rewrite Hn. }
+  fold (old_proto o).
+  destruct Hr as [Hr|Hr]; rewrite Hr, E; rewrite andb_false_r; cbn [andb];
+    destruct (old_proto o); try reflexivity;
+    destruct (attr_names m); reflexivity.
+Qed.
+
+Lemma getattr_empty m k : getattr m empty k = None.
+Proof. unfold getattr. destruct (is_slot m k); reflexivity. Qed.
+
+Lemma run_generated m r x fv o :
+  (resolve m = RGen r \/ (resolve m = RUser r /\ o <> OLegacy)) ->
+  attr_names r = attr_names m -> fields_ok m x fv ->
+  exists y, run m x o = XOk y /\ fields_ok m y fv /\
+    (leaf_cache r = true -> old_proto o && is_nil (attr_names m) = false ->
+     getattr m y KCache = Some PNone).
+Proof.
+  intros Hr Hn H.
+  destruct (op_eq_legacy_dec o) as [->|Hol].
+  - destruct Hr as [Hr|[_ C]]; [|contradiction].
+    cbn [run]. rewrite Hr.
+    rewrite (read_attrs_ok m x fv H) by (rewrite Hn; apply incl_refl).
+    eexists. split; [reflexivity|].
+    destruct (gen_setstate_fields m r fv (StTuple (map snd (fields_store fv (attr_names r)))) Hn)
+      as [F Cc]; [now right|].
+    split; [exact F | intros Hc _; now apply Cc].
+  - rewrite run_nonlegacy by assumption.
+    assert (Hr' : resolve m = RGen r \/ resolve m = RUser r) by (destruct Hr as [?|[? _]]; auto).
+    rewrite (reduce_generated m r x fv o Hr' Hn H).
+    destruct (old_proto o && is_nil (attr_names m)) eqn:E.
+    + apply andb_true_iff in E as [E1 E2]. rewrite E1, E2. cbn.
+      eexists. split; [reflexivity|]. split; [|discriminate].
+      intros n Hin. destruct (attr_names m); [destruct Hin | discriminate].
+    + assert (Hs : (if old_proto o then negb (is_nil (attr_names m)) else true) = true).
+      { destruct (old_proto o); [|reflexivity]. cbn in E. now rewrite E. }
+      rewrite Hs. unfold reconstruct. cbn [xfer_state]. rewrite xfer_fields_store.
+      destruct (gen_setstate_fields m r fv (StDict (fields_store fv (attr_names r))) Hn)
+        as [F Cc]; [now left|].
+      rewrite <- Hn.
+      destruct Hr' as [Hr2|Hr2]; rewrite Hr2; eexists; (split; [reflexivity|]);
+        (split; [exact F | intros Hc _; now apply Cc]).
+Qed.
+
+(** ** Transfer through the default reduce protocol *)
+
+Lemma slot_values_in x : forall ks k v,
+  In k ks -> get (i_slots x) k = Some v -> In (k, v) (slot_values x ks).
+Proof.
+  induction ks as [|a r IH]; intros k v Hin Hg; [destruct Hin|]. cbn.
+  destruct Hin as [->|Hin].
+  - rewrite Hg. now left.
+  - destruct (get (i_slots x) a); [right|]; now apply IH.
+Qed.
+
+Lemma slot_values_sound x : forall ks k v,
+  In (k, v) (slot_values x ks) -> In k ks /\ get (i_slots x) k = Some v.
+Proof.
+  induction ks as [|a r IH]; intros k v H; [destruct H|]. cbn in H.
+  destruct (get (i_slots x) a) eqn:E.
+  - destruct H as [H|H].
+    + inversion H; subst. split; [now left | assumption].
+    + apply IH in H as [H1 H2]. split; [now right | assumption].
+  - apply IH in H as [H1 H2]. split; [now right | assumption].
+Qed.
+
+Lemma xfer_store_in o s k v : In (k, v) (xfer_store o s) -> exists v0, v = xfer o v0 /\ In (k, v0) s.
+Proof.
+  intros H. apply in_map_iff in H as ([k0 v0] & E & Hin). cbn in E. inversion E; subst.
+  eauto.
+Qed.
+
+Lemma in_xfer_store o s k v : In (k, v) s -> In (k, xfer o v) (xfer_store o s).
+Proof. intros H. apply in_map_iff. exists (k, v). split; [reflexivity | assumption]. Qed.
+
+(** Every attribute of the copy is the wire image of the original's attribute. *)
+Lemma default_pointwise m x o :
+  resolve m = RDefault -> o <> OLegacy ->
+  old_proto o && slots_truthy m = false ->
+  (eff_frozen m = false \/ slotnames m = []) ->
+  exists y, run m x o = XOk y /\
+            forall k, getattr m y k = option_map (xfer o) (getattr m x k).
+Proof.
+  intros Hr Hol Hp Hf. rewrite run_nonlegacy by assumption.
+  unfold reduce. rewrite Hr. fold (old_proto o). rewrite andb_true_r, Hp.
+  unfold default_getstate.
+  remember (slot_values x (slotnames m)) as svs eqn:SV.
+  assert (Hnone : forall k, is_slot m k = true -> get (i_slots x) k = None ->
+                            ~ In k (map fst (xfer_store o svs))).
+  { intros k Hs Hg C. apply in_map_iff in C as ([k0 v0] & E & Hin). cbn in E. subst k0.
+    apply xfer_store_in in Hin as (v1 & _ & Hin). rewrite SV in Hin.
+    apply slot_values_sound in Hin as [_ Hin]. congruence. }
+  assert (Hnot : forall k, is_slot m k = false -> ~ In k (map fst (xfer_store o svs))).
+  { intros k Hs C. apply in_map_iff in C as ([k0 v0] & E & Hin). cbn in E. subst k0.
+    apply xfer_store_in in Hin as (v1 & _ & Hin). rewrite SV in Hin.
+    apply slot_values_sound in Hin as [Hin _]. apply is_slot_in in Hin. congruence. }
+  assert (Hsome : forall k v, is_slot m k = true -> get (i_slots x) k = Some v ->
+                  In (k, xfer o v) (xfer_store o svs) /\
+                  forall v', In (k, v') (xfer_store o svs) -> v' = xfer o v).
+  { intros k v Hs Hg. split.
+    - apply in_xfer_store. rewrite SV. apply slot_values_in; [now apply is_slot_in | assumption].
+    - intros v' Hin. apply xfer_store_in in Hin as (v1 & -> & Hin). rewrite SV in Hin.
+      apply slot_values_sound in Hin as [_ Hin]. congruence. }
+  destruct svs as [|p sv].
+  - (* no slot holds a value *)
+    assert (Hs0 : forall k, is_slot m k = true -> get (i_slots x) k = None).
+    { intros k Hs. destruct (get (i_slots x) k) eqn:E; [|reflexivity].
+      destruct (Hsome k p Hs E) as [[] _]. }
+    destruct (i_dict x) as [|e d] eqn:D.
+    + assert (Hh : (if old_proto o then truthy StNone else not_none StNone) = false)
+        by (destruct (old_proto o); reflexivity).
+      rewrite Hh. eexists. split; [reflexivity|]. intros k. rewrite getattr_empty.
+      unfold getattr. destruct (is_slot m k) eqn:Hs; [now rewrite Hs0 | now rewrite D].
+    + assert (Hh : (if old_proto o then truthy (StDict (e :: d)) else not_none (StDict (e :: d))) = true)
+        by (destruct (old_proto o); reflexivity).
+      rewrite Hh. unfold reconstruct. rewrite Hr. cbn [xfer_state default_setstate].
+      eexists. split; [reflexivity|]. intros k. unfold getattr; cbn [i_dict i_slots empty].
+      destruct (is_slot m k) eqn:Hs.
+      * now rewrite Hs0.
+      * rewrite app_nil_r, get_xfer_store, D. reflexivity.
+  - (* some slots hold values: (dict-or-None, slots) *)
+    assert (Hne : slotnames m <> []).
+    { intros C. rewrite C in SV. discriminate. }
+    assert (Hfz : eff_frozen m = false) by (destruct Hf as [?|?]; [assumption | contradiction]).
+    match goal with |- context [StPair ?d _] => set (dopt := d) end.
+    assert (Hh : (if old_proto o then truthy (StPair dopt (p :: sv))
+                  else not_none (StPair dopt (p :: sv))) = true)
+      by (destruct (old_proto o); reflexivity).
+    rewrite Hh. unfold reconstruct. rewrite Hr. cbn [xfer_state default_setstate].
+    set (y1 := match option_map (xfer_store o) dopt with
+               | Some l => MkI (l ++ i_dict empty) (i_slots empty)
+               | None => empty end).
+    assert (Hy1s : forall k, get (i_slots y1) k = None).
+    { intros k. unfold y1. destruct (option_map (xfer_store o) dopt); reflexivity. }
+    assert (Hy1d : forall k, get (i_dict y1) k = option_map (xfer o) (get (i_dict x) k)).
+    { intros k. unfold y1, dopt. destruct (i_dict x) as [|e d] eqn:D; cbn [option_map];
+        [reflexivity|].
+      cbn [i_dict empty]. rewrite app_nil_r. now rewrite get_xfer_store. }
+    destruct (xfer_store o (p :: sv)) as [|q qs] eqn:Q; [discriminate|]. rewrite <- Q in *.
+    rewrite Hfz. eexists. split; [reflexivity|]. intros k.
+    destruct (is_slot m k) eqn:Hs.
+    + destruct (get (i_slots x) k) as [v|] eqn:G.
+      * destruct (Hsome k v Hs G) as [Hin Hu].
+        rewrite (getattr_set_all_in m _ y1 k (xfer o v) Hin Hu).
+        unfold getattr. now rewrite Hs, G.
+      * rewrite getattr_set_all_notin by (now apply Hnone).
+        unfold getattr. now rewrite Hs, Hy1s, G.
+    + rewrite getattr_set_all_notin by (now apply Hnot).
+      unfold getattr. now rewrite Hs, Hy1d.
+Qed.
+
+(** ** The guard and the round-trip theorem *)
+
+Definition is_copy (o : op) : bool := match o with OCopy => true | _ => false end.
+Definition is_legacy (o : op) : bool := match o with OLegacy => true | _ => false end.
+
+(** [wf m o h]: the class chain / operation / history combinations for which the
+    round trip is claimed.  Each conjunct excludes one refuted family (see the
+    [_refuted] witnesses below). *)
+Definition wf (m : mro) (o : op) (h : list preop) : bool :=
+  match resolve m with
+  | RGen r =>
+      (* the pair in force lists every field of the class and resets its cache (K4) *)
+      list_eqb Nat.eqb (attr_names r) (attr_names m)
+      && implb (leaf_cache m) (leaf_cache r)
+      (* an empty state is falsy: protocols 0/1 never call __setstate__ (K12) *)
+      && negb (old_proto o && is_nil (attr_names m) && leaf_cache m)
+  | RUser r =>
+      negb (is_legacy o)
+      && list_eqb Nat.eqb (attr_names r) (attr_names m)
+      && implb (leaf_cache m) (leaf_cache r)
+      && negb (old_proto o && is_nil (attr_names m) && leaf_cache m)
+  | RDefault =>
+      negb (is_legacy o)
+      (* copyreg refuses __slots__ without __getstate__ under protocols 0/1 (K5) *)
+      && negb (old_proto o && slots_truthy m)
+      (* slot state is re-assigned with setattr: impossible when frozen (K5) *)
+      && (negb (eff_frozen m) || is_nil (slotnames m))
+      (* a shallow copy shares the cache wrapper: stale after hash-then-assign (K2) *)
+      && negb (is_copy o && leaf_cache m && stale m h)
+  end.
+
+Lemma names_eqb_eq a b : list_eqb Nat.eqb a b = true -> a = b.
+Proof. apply (list_eqb_spec Nat.eqb Nat.eqb_eq). Qed.
+
+Lemma transfer m x fv o h :
+  wf m o h = true -> fields_ok m x fv -> cache_ok m x ->
+  exists y, run m x o = XOk y /\ fields_ok m y fv /\
+    (leaf_cache m = true ->
+       getattr m y KCache = Some PNone \/
+       (stale m h = false /\ getattr m y KCache = getattr m x KCache)).
+Proof.
+  unfold wf. intros W H C.
+  destruct (resolve m) as [r|r|] eqn:Hr.
+  - apply andb_true_iff in W as [W W3]. apply andb_true_iff in W as [W1 W2].
+    apply names_eqb_eq in W1.
+    destruct (run_generated m r x fv o (or_introl Hr) W1 H) as (y & R & F & Cc).
+    exists y. split; [assumption|]. split; [assumption|]. intros Hc. left.
+    rewrite Hc in W2, W3. cbn in W2. rewrite andb_true_r in W3.
+    apply Cc; [assumption | now apply negb_true_iff].
+  - apply andb_true_iff in W as [W W3]. apply andb_true_iff in W as [W W2].
+    apply andb_true_iff in W as [W0 W1]. apply names_eqb_eq in W1.
+    assert (Hol : o <> OLegacy) by (intros ->; discriminate).
+    destruct (run_generated m r x fv o (or_intror (conj Hr Hol)) W1 H) as (y & R & F & Cc).
+    exists y. split; [assumption|]. split; [assumption|]. intros Hc. left.
+    rewrite Hc in W2, W3. cbn in W2. rewrite andb_true_r in W3.
+    apply Cc; [assumption | now apply negb_true_iff].
+  - apply andb_true_iff in W as [W W4]. apply andb_true_iff in W as [W W3].
+    apply andb_true_iff in W as [W1 W2].
+    assert (Hol : o <> OLegacy) by (intros ->; discriminate).
+    assert (Hf : eff_frozen m = false \/ slotnames m = []).
+    { apply orb_true_iff in W3 as [W3|W3]; [left; now apply negb_true_iff|].
+      right. destruct (slotnames m); [reflexivity | discriminate]. }
+    destruct (default_pointwise m x o Hr Hol (proj1 (negb_true_iff _) W2) Hf) as (y & R & P).
+    exists y. split; [assumption|]. split.
+    + intros n Hn. rewrite P, (H n Hn). cbn. now rewrite xfer_pv.
+    + intros Hc. rewrite P. destruct o; try contradiction.
+      * right. rewrite Hc in W4. cbn in W4. split; [now apply negb_true_iff|].
+        destruct (getattr m x KCache); reflexivity.
+      * left. destruct (C Hc) as [E|[c E]]; rewrite E; reflexivity.
+      * left. destruct (C Hc) as [E|[c E]]; rewrite E; reflexivity.
+Qed.
+
+Lemma lookup_val_map fv : forall ns n, In n ns -> lookup_val ns (map fv ns) n = fv n.
+Proof.
+  induction ns as [|a r IH]; intros n H; [destruct H|]. cbn.
+  destruct (Nat.eqb a n) eqn:E.
+  - apply Nat.eqb_eq in E. now subst.
+  - apply IH. destruct H as [->|H]; [|assumption]. rewrite Nat.eqb_refl in E. discriminate.
+Qed.
+
+Lemma hash_spec_ext m fv fv' :
+  map fv' (attr_names m) = map fv (attr_names m) -> hash_spec m fv' = hash_spec m fv.
+Proof. intros E. unfold hash_spec. now rewrite E. Qed.
+
+(** The hash of a fresh instance built from the copy's field values. *)
+Lemma fresh_hash_ok m y fv :
+  fields_ok m y fv -> fresh_hash m y = hash_spec m fv.
+Proof.
+  intros H. unfold fresh_hash. rewrite (read_fields_ok m y fv H) by apply incl_refl.
+  rewrite (do_hash_uncached m _ (lookup_val (attr_names m) (map fv (attr_names m)))).
+  - apply hash_spec_ext. apply map_ext_in. intros n Hn. now apply lookup_val_map.
+  - apply init_fields_ok.
+  - intros Hc. now apply init_cache_none.
+Qed.
+
+Lemma hash_spec_cases m fv :
+  hash_spec m fv = HTypeErr \/
+  (hash_spec m fv = HVal (map fv (attr_names m)) /\ hashable m = true
+   /\ forallb val_hashable (map fv (attr_names m)) = true).
+Proof.
+  unfold hash_spec. destruct (hashable m); cbn; [|now left].
+  destruct (forallb val_hashable (map fv (attr_names m))); [right; auto | now left].
+Qed.
+
+Lemma post_from_invariants m h x y fv :
+  fields_ok m x fv -> fields_ok m y fv -> cache_ok m x ->
+  (leaf_cache m = true -> stale m h = false -> coherent m x fv) ->
+  (leaf_cache m = true ->
+     getattr m y KCache = Some PNone \/
+     (stale m h = false /\ getattr m y KCache = getattr m x KCache)) ->
+  post_ok m h (observe_ok m x y) = true.
+Proof.
+  intros Hx Hy Cx Co Cy. unfold post_ok, observe_ok. cbn [o_tag o_fields o_eq o_horig o_hash].
+  rewrite (field_stats_ok m x y fv Hx Hy) by apply incl_refl.
+  rewrite map_length, Nat.eqb_refl, (do_eq_ok m x y fv Hx Hy) by apply incl_refl.
+  cbn [andb]. unfold hash_obs. rewrite (fresh_hash_ok m y fv Hy).
+  destruct (hashable m) eqn:Hh.
+  2:{ unfold do_hash at 1. rewrite Hh. reflexivity. }
+  destruct (leaf_cache m) eqn:Hc.
+  2:{ rewrite (do_hash_uncached m x fv Hx), (do_hash_uncached m y fv Hy) by (rewrite Hc; discriminate).
+      destruct (hash_spec_cases m fv) as [E|(E & _)]; rewrite E; [reflexivity|].
+      cbn [hstat_of]. now rewrite hres_eqb_refl. }
+  specialize (Co eq_refl). specialize (Cy eq_refl).
+  destruct (Cx Hc) as [Ex|[c Ex]].
+  - (* the original has no cached code *)
+    assert (Ey : getattr m y KCache = Some PNone).
+    { destruct Cy as [E|[_ E]]; [assumption | congruence]. }
+    rewrite (do_hash_uncached m x fv Hx), (do_hash_uncached m y fv Hy) by auto.
+    destruct (hash_spec_cases m fv) as [E|(E & _)]; rewrite E; [reflexivity|].
+    cbn [hstat_of]. now rewrite hres_eqb_refl.
+  - (* the original answers a cached code *)
+    rewrite (do_hash_cached m x c Hh Hc Ex). cbn [hstat_of].
+    destruct Cy as [Ey|[St Ey]].
+    + rewrite (do_hash_uncached m y fv Hy) by auto.
+      destruct (stale m h) eqn:St.
+      * destruct (hash_spec_cases m fv) as [E|(E & _)]; rewrite E; [reflexivity|].
+        rewrite hres_eqb_refl. now rewrite orb_true_r.
+      * destruct (Co eq_refl c Ex) as [Ec Ehh]. subst c.
+        unfold hash_spec. rewrite Hh, Ehh. cbn [negb]. now rewrite hres_eqb_refl.
+    + rewrite Ex in Ey. rewrite (do_hash_cached m y c Hh Hc Ey).
+      destruct (Co St c Ex) as [Ec Ehh]. subst c.
+      unfold hash_spec. rewrite Hh, Ehh. cbn [negb]. now rewrite hres_eqb_refl.
+Qed.
+
+(** *** The round trip, for every guarded chain, operation, history and values. *)
+Theorem roundtrip_post_l : forall m fv h o,
+  wf m o h = true -> post_ok m h (observe m fv h o) = true.
+Proof.
+  intros m fv h o W.
+  set (x0 := init m fv).
+  assert (F0 : fields_ok m x0 fv) by apply init_fields_ok.
+  assert (C0 : cache_ok m x0) by (intros Hc; left; now apply init_cache_none).
+  destruct (hist_fields_cache m h x0 fv F0 C0) as [Fx Cx].
+  assert (Co : leaf_cache m = true -> stale m h = false ->
+               coherent m (apply_hist m x0 h) (hist_fv m fv h)).
+  { intros Hc St. apply (hist_coherent m h x0 fv false); auto.
+    - intros c E. unfold x0 in E. rewrite init_cache_none in E by assumption. discriminate.
+    - intros _ c E. unfold x0 in E. rewrite init_cache_none in E by assumption. discriminate.
+    - unfold stale in St. rewrite Hc in St. cbn in St.
+      destruct (eff_frozen m); [reflexivity|]. cbn in *. now rewrite St. }
+  destruct (transfer m _ _ o h W Fx Cx) as (y & R & Fy & Cy).
+  unfold observe. fold x0. rewrite R.
+  now apply (post_from_invariants m h _ y (hist_fv m fv h)).
+Qed.
+
+(** *** A cached hash code is not carried over (except by a shallow copy through the
+    default protocol, which is K2). *)
+Theorem cache_not_carried_l : forall m fv h o,
+  wf m o h = true -> leaf_cache m = true ->
+  (is_copy o = true -> resolve m <> RDefault) ->
+  exists y, run m (apply_hist m (init m fv) h) o = XOk y /\ getattr m y KCache = Some PNone.
+Proof.
+  intros m fv h o W Hc Hnc.
+  set (x0 := init m fv).
+  assert (F0 : fields_ok m x0 fv) by apply init_fields_ok.
+  assert (C0 : cache_ok m x0) by (intros _; left; now apply init_cache_none).
+  destruct (hist_fields_cache m h x0 fv F0 C0) as [Fx Cx].
+  unfold wf in W.
+  destruct (resolve m) as [r|r|] eqn:Hr.
+  - apply andb_true_iff in W as [W W3]. apply andb_true_iff in W as [W1 W2].
+    apply names_eqb_eq in W1.
+    destruct (run_generated m r _ _ o (or_introl Hr) W1 Fx) as (y & R & _ & Cc).
+    exists y. split; [assumption|]. rewrite Hc in W2, W3. cbn in W2. rewrite andb_true_r in W3.
+    apply Cc; [assumption | now apply negb_true_iff].
+  - apply andb_true_iff in W as [W W3]. apply andb_true_iff in W as [W W2].
+    apply andb_true_iff in W as [W0 W1]. apply names_eqb_eq in W1.
+    assert (Hol : o <> OLegacy) by (intros ->; discriminate).
+    destruct (run_generated m r _ _ o (or_intror (conj Hr Hol)) W1 Fx) as (y & R & _ & Cc).
+    exists y. split; [assumption|]. rewrite Hc in W2, W3. cbn in W2. rewrite andb_true_r in W3.
+    apply Cc; [assumption | now apply negb_true_iff].
+  - apply andb_true_iff in W as [W W4]. apply andb_true_iff in W as [W W3].
+    apply andb_true_iff in W as [W1 W2].
+    assert (Hol : o <> OLegacy) by (intros ->; discriminate).
+    assert (Hf : eff_frozen m = false \/ slotnames m = []).
+    { apply orb_true_iff in W3 as [W3|W3]; [left; now apply negb_true_iff|].
+      right. destruct (slotnames m); [reflexivity | discriminate]. }
+    destruct (default_pointwise m (apply_hist m x0 h) o Hr Hol (proj1 (negb_true_iff _) W2) Hf)
+      as (y & R & P).
+    exists y. split; [assumption|]. rewrite P.
+    destruct o; try contradiction.
+    + exfalso. now apply Hnc.
+    + destruct (Cx Hc) as [E|[c E]]; rewrite E; reflexivity.
+    + destruct (Cx Hc) as [E|[c E]]; rewrite E; reflexivity.
+Qed.
+
+(** ** Which hierarchies satisfy the guard *)
+
+(** The decision is: the explicit flag, else follow [slots] unless the class body
+    brings its own pair and auto-detection is on. *)
+Lemma gs_decision_table_l c :
+  gs_decision c =
+  match s_gs c with
+  | Some flag => flag
+  | None => s_slots c && negb (s_autodetect c && s_usergs c)
+  end.
+Proof. unfold gs_decision. destruct (s_gs c), (s_slots c), (s_autodetect c), (s_usergs c); reflexivity. Qed.
+
+Lemma names_eqb_refl l : list_eqb Nat.eqb l l = true.
+Proof. now apply (list_eqb_spec Nat.eqb Nat.eqb_eq). Qed.
+
+(** A class that generates its own pair (any mixture of bases below it). *)
+Lemma wf_leaf_generated_l c bases o h :
+  gs_decision c = true ->
+  old_proto o && is_nil (attr_names (c :: bases)) && s_cache c = false ->
+  wf (c :: bases) o h = true.
+Proof.
+  intros Hd Hk. unfold wf. cbn [resolve]. unfold gs_of. rewrite Hd.
+  rewrite names_eqb_refl. cbn [leaf_cache] in *. rewrite Hk.
+  destruct (s_cache c); reflexivity.
+Qed.
+
+Definition plain_slots (c : cspec) : Prop :=
+  s_slots c = true /\ s_gs c = None /\ s_usergs c = false.
+Definition plain_dict (c : cspec) : Prop :=
+  s_slots c = false /\ s_gs c = None /\ s_usergs c = false.
+
+(** Single build mode, all slotted, default [getstate_setstate]: every operation,
+    every history (except the field-less caching class under protocols 0/1). *)
+Lemma wf_all_slots_l c bases o h :
+  Forall plain_slots (c :: bases) ->
+  old_proto o && is_nil (attr_names (c :: bases)) && s_cache c = false ->
+  wf (c :: bases) o h = true.
+Proof.
+  intros Hall Hk. inversion Hall as [|? ? (Hs & Hg & Hu) _]; subst.
+  apply wf_leaf_generated_l; [|assumption].
+  unfold gs_decision. now rewrite Hg, Hu, andb_false_r.
+Qed.
+
+Lemma all_dict_facts : forall m, Forall plain_dict m ->
+  resolve m = RDefault /\ slotnames m = [] /\ slots_truthy m = false.
+Proof.
+  induction m as [|c bases IH]; intros H; [auto|].
+  inversion H as [|? ? (Hs & Hg & Hu) Hb]; subst.
+  destruct (IH Hb) as (I1 & I2 & I3). cbn [resolve slotnames slots_truthy].
+  unfold gs_of, gs_decision. rewrite Hg, Hu, Hs, andb_false_r. cbn. auto.
+Qed.
+
+(** Single build mode, all dict classes: every operation and history except the
+    shallow copy of a stale cache (K2). *)
+Lemma wf_all_dict_l m o h :
+  Forall plain_dict m -> o <> OLegacy ->
+  is_copy o && leaf_cache m && stale m h = false ->
+  wf m o h = true.
+Proof.
+  intros Hall Hol Hk. destruct (all_dict_facts m Hall) as (H1 & H2 & H3).
+  unfold wf. rewrite H1, H2, H3, Hk.
+  rewrite !andb_false_r. cbn.
+  rewrite orb_true_r, !andb_true_r.
+  destruct o; try reflexivity. exfalso. now apply Hol.
+Qed.
+
+(** ** Non-vacuity and the refuted full-strength statements *)
+
+Definition ex_dict_cache : cspec := C false false true false None false false true [0].
+Definition ex_slots_base : cspec := C true false false true None false false true [0].
+Definition ex_slots_leaf : cspec := C true false true true None false false true [1; 2].
+Definition ex_dict_leaf : cspec := C false false false false None false false false [1].
+Definition ex_fv (n : fname) : val := VH (10 + n).
+
+(** The guard holds and the theorem applies: slotted caching class over a slotted
+    base, hash-then-assign history, every kind of operation. *)
+Example wf_example :
+  forallb (fun o => wf [ex_slots_leaf; ex_slots_base] o [PHash; PMut 1 (VH 7); PHash])
+          [OCopy; ODeep; OPickle 0; OPickle 1; OPickle 2; OPickle 5; OLegacy] = true
+  /\ observe [ex_slots_leaf; ex_slots_base] ex_fv [PHash; PMut 1 (VH 7)] (OPickle 0)
+     = Ob TOk [FEq; FEq; FEq] EqTrue HsOk (HoVal true false).
+Proof. split; vm_compute; reflexivity. Qed.
+
+(** Slotted class above a dict base (mixed chain): guarded and fine. *)
+Example wf_mixed_example :
+  wf [ex_slots_leaf; ex_dict_cache] ODeep [PHash] = true
+  /\ observe [ex_slots_leaf; ex_dict_cache] ex_fv [PHash] ODeep
+     = Ob TOk [FEq; FEq; FEq] EqTrue HsOk (HoVal true true).
+Proof. split; vm_compute; reflexivity. Qed.
+
+(** K2: shallow copy of a dict caching class after hash-then-assign answers the
+    stale code (equal to the original's, different from a fresh instance's). *)
+Lemma K2_refuted_l :
+  observe [ex_dict_cache] ex_fv [PHash; PMut 0 (VH 7)] OCopy
+  = Ob TOk [FEq] EqTrue HsOk (HoVal false true)
+  /\ post_ok [ex_dict_cache] [PHash; PMut 0 (VH 7)]
+       (observe [ex_dict_cache] ex_fv [PHash; PMut 0 (VH 7)] OCopy) = false
+  /\ post_ok [ex_dict_cache] [PHash; PMut 0 (VH 7)]
+       (observe [ex_dict_cache] ex_fv [PHash; PMut 0 (VH 7)] ODeep) = true.
+Proof. repeat split; vm_compute; reflexivity. Qed.
+
+(** K2 also for a slotted class that opted out of the generated pair. *)
+Lemma K2_slots_refuted_l :
+  let c := C true false true false (Some false) false false true [0] in
+  post_ok [c] [PHash; PMut 0 (VH 7)] (observe [c] ex_fv [PHash; PMut 0 (VH 7)] OCopy) = false.
+Proof. vm_compute; reflexivity. Qed.
+
+(** K4: a dict attrs class below a slotted attrs class loses its own fields, under
+    every operation. *)
+Lemma K4_refuted_l :
+  forallb (fun o =>
+     match observe [ex_dict_leaf; ex_slots_base] ex_fv [] o with
+     | Ob TOk [FEq; FMissing] EqAttrErr _ _ => true
+     | _ => false
+     end) [OCopy; ODeep; OPickle 0; OPickle 2; OPickle 5; OLegacy] = true.
+Proof. vm_compute; reflexivity. Qed.
+
+(** K4, cache variant: no field lost, but the inherited [__setstate__] of a base
+    without [cache_hash] leaves the subclass's cache unset: hash(copy) raises. *)
+Lemma K4_cache_refuted_l :
+  let leaf := C false false true false None false false true [] in
+  observe [leaf; ex_slots_base] ex_fv [] ODeep = Ob TOk [FEq] EqTrue HsOk HoAttrErr.
+Proof. vm_compute; reflexivity. Qed.
+
+(** K5: slots + getstate_setstate=False: protocols 0/1 raise TypeError; frozen
+    instances cannot be reconstructed at all. *)
+Lemma K5_refuted_l :
+  let c := C true false false true (Some false) false false false [0] in
+  let f := C true true false true (Some false) false false false [0] in
+  o_tag (observe [c] ex_fv [] (OPickle 0)) = TTypeError
+  /\ o_tag (observe [c] ex_fv [] (OPickle 1)) = TTypeError
+  /\ post_ok [c] [] (observe [c] ex_fv [] (OPickle 2)) = true
+  /\ forallb (fun o => match o_tag (observe [f] ex_fv [] o) with TFrozen => true | _ => false end)
+       [OCopy; ODeep; OPickle 2; OPickle 5] = true.
+Proof. repeat split; vm_compute; reflexivity. Qed.
+
+(** K12: a field-less caching class with a generated pair under protocols 0/1. *)
+Lemma K12_refuted_l :
+  let c := C true false true false None false false true [] in
+  observe [c] ex_fv [] (OPickle 1) = Ob TOk [] EqTrue HsOk HoAttrErr
+  /\ post_ok [c] [] (observe [c] ex_fv [] (OPickle 2)) = true.
+Proof. split; vm_compute; reflexivity. Qed.
+
+(** Hence the unguarded statement is false of the faithful model. *)
+Lemma roundtrip_unguarded_refuted_l :
+  exists m fv h o, post_ok m h (observe m fv h o) = false.
+Proof.
+  exists [ex_dict_leaf; ex_slots_base], ex_fv, [], OCopy. vm_compute; reflexivity.
+Qed.
